@@ -13,6 +13,7 @@ import (
 	"strconv"
 	"strings"
 	"sync"
+	"sync/atomic"
 	"testing"
 	"time"
 
@@ -113,6 +114,8 @@ type runState struct {
 	tncClose  time.Duration
 	teardown  bool
 	teardownT time.Duration
+	down      atomic.Bool // = teardown, for hostEnd
+	listeners []net.Listener
 }
 
 func (rs *runState) tearingDown() bool {
@@ -247,6 +250,9 @@ func (rs *runState) client(open func() (*ardop.TNC, error)) {
 						ln = nil
 						break
 					}
+					rs.mu.Lock()
+					rs.listeners = append(rs.listeners, ln)
+					rs.mu.Unlock()
 				}
 				c = rs.call("accept", i, 0, func(c *callRec) error {
 					var err error
@@ -446,17 +452,38 @@ func (rs *runState) reader(cr *connRec) {
 // hostEnd is what ardop.Open gets in serial mode: the host's end of the link.
 // After the run's teardown began writes are swallowed so that nothing the
 // teardown itself causes can look like a library failure.
+//
+// Goroutines of the library that stay blocked after the run keep this value
+// alive for the life of the worker process: it must not lead to the run's data.
 type hostEnd struct {
-	*pipe.End
-	rs *runState
+	end  atomic.Pointer[pipe.End] // cleared when the run is over: the link leads to the Sim and its tables
+	down *atomic.Bool
 }
 
-func (h hostEnd) Write(p []byte) (int, error) {
-	n, err := h.End.Write(p)
-	if err != nil && h.rs.tearingDown() {
+func (h *hostEnd) Read(p []byte) (int, error) {
+	if e := h.end.Load(); e != nil {
+		return e.Read(p)
+	}
+	return 0, io.ErrClosedPipe
+}
+
+func (h *hostEnd) Write(p []byte) (int, error) {
+	e := h.end.Load()
+	if e == nil {
+		return len(p), nil
+	}
+	n, err := e.Write(p)
+	if err != nil && h.down.Load() {
 		return len(p), nil
 	}
 	return n, err
+}
+
+func (h *hostEnd) Close() error {
+	if e := h.end.Load(); e != nil {
+		return e.Close()
+	}
+	return nil
 }
 
 func execC14(t *testing.T, prop string, raw json.RawMessage, trace bool) core.Outcome {
@@ -480,11 +507,14 @@ func execC14(t *testing.T, prop string, raw json.RawMessage, trace bool) core.Ou
 		sim.Probe(p.Mode + "-mode")
 		var open func() (*ardop.TNC, error)
 		var serial *pipe.Link
+		var host *hostEnd
 		var network *simnet.Net
 		if p.Mode == "serial" {
 			serial = pipe.New(sim, p.Link)
 			rs.model.AttachSerial(serial)
-			open = func() (*ardop.TNC, error) { return ardop.Open(hostEnd{serial.A, rs}, p.MyCall, p.Grid) }
+			host = &hostEnd{down: &rs.down}
+			host.end.Store(serial.A)
+			open = func() (*ardop.TNC, error) { return ardop.Open(host, p.MyCall, p.Grid) }
 		} else {
 			network = simnet.New(sim)
 			network.LinkPlan = func(addr string, n int) pipe.Plan {
@@ -520,6 +550,7 @@ func execC14(t *testing.T, prop string, raw json.RawMessage, trace bool) core.Ou
 		// ---- teardown
 		rs.mu.Lock()
 		rs.teardown, rs.teardownT = true, sim.Now()
+		rs.down.Store(true)
 		tncs := append([]*ardop.TNC(nil), rs.tncs...)
 		rs.mu.Unlock()
 		rs.model.Stop()
@@ -546,7 +577,30 @@ func execC14(t *testing.T, prop string, raw json.RawMessage, trace bool) core.Ou
 			simnet.Use(nil)
 		}
 		core.WaitAll(time.Minute, all...)
+		// The listener goroutine of a closed TNC waits for somebody to take its
+		// last error; take it so that it can end.
+		var drains []*core.GoResult
+		for _, ln := range rs.listeners {
+			ln := ln
+			drains = append(drains, core.Go(func() { ln.Accept(); ln.Accept() }))
+		}
+		core.WaitAll(time.Minute, drains...)
 		sim.FillOutcome(&out)
+		// Whatever stays blocked in this bubble is never collected: cut what it
+		// can still reach (link taps -> model -> every payload of the run).
+		if serial != nil {
+			serial.Tap(nil, nil)
+			host.end.Store(nil)
+		}
+		if network != nil {
+			for _, l := range network.Links {
+				l.Tap(nil, nil)
+			}
+		}
+		rs.model.Release()
+		rs.mu.Lock()
+		rs.calls, rs.conns, rs.tncs, rs.extra, rs.listeners, rs.plan, rs.model = nil, nil, nil, nil, nil, nil, nil
+		rs.mu.Unlock()
 	})
 	if pv != nil {
 		out.Violate(prop, "harness", "bubble-panic", fmt.Sprintf("%v\n%s", pv, stack))
